@@ -215,6 +215,9 @@ func init() {
 				if r.Intn(4) == 0 {
 					g.NearCap = true
 				}
+				if r.Intn(3) == 0 {
+					g.PriceSwarm = true
+				}
 			})
 			for i := range sc.Blocks {
 				b := &sc.Blocks[i]
